@@ -96,7 +96,10 @@ KeyAt(j) ==
 \* ---- signatures ----------------------------------------------------------------------
 SignKeys == <<PadLeft(<<1>>, 32), PadLeft(<<2>>, 32), NMinus(1),
               HexToBytes("4f3edf983ac636a65a842ce7c78d9aa706d3b113bce9c46f30d7d21715b23b1d")>>
-Digests == <<Zeros(32), PadLeft(<<1>>, 32), NMinus(1), BnFixed(CurveN, 32), NPlus(1), Rep(32, 255), <<128>> \o Zeros(31)>>
+\* the field prime p = 2^256 - 2^32 - 977 (a natural confusion with the group order n)
+FieldP == Rep(27, 255) \o <<254, 255, 255, 252, 47>>
+Digests == <<Zeros(32), PadLeft(<<1>>, 32), NMinus(1), BnFixed(CurveN, 32), NPlus(1), Rep(32, 255), <<128>> \o Zeros(31),
+             BnFixed(BnSub(FieldP, <<1>>), 32), FieldP, BnFixed(BnAdd(FieldP, <<1>>), 32), BnFixed(HalfN, 32)>>
 NSignFixed == 4 * Len(Digests)
 NSignRand  == IF Thorough THEN 11000 ELSE 350
 SignAt(j) ==
